@@ -163,7 +163,47 @@ func VerifyAllocation(fn *ir.Function) error {
 		}
 	}
 
+	// High-byte registers (AH, CH, DH, BH) cannot be encoded in an instruction
+	// that requires a REX prefix. The assembler would silently encode the low
+	// byte of SP, BP, SI or DI instead.
+	for _, i := range fn.Instructions() {
+		if usesHighByte(i) && requiresREX(i) {
+			return errors.New("high-byte register used in instruction requiring REX prefix")
+		}
+	}
+
 	return nil
+}
+
+// usesHighByte reports whether a high-byte register is an operand of i.
+func usesHighByte(i *ir.Instruction) bool {
+	for _, op := range i.Operands {
+		if r, ok := op.(reg.Register); ok && r.Kind() == reg.KindGP && r.Mask() == reg.S8H.Mask() {
+			return true
+		}
+	}
+	return false
+}
+
+// requiresREX reports whether encoding the general-purpose registers of i
+// requires a REX prefix: a register with index 8 or above, the low byte of SP,
+// BP, SI or DI, or a 64-bit register operand.
+func requiresREX(i *ir.Instruction) bool {
+	for _, r := range i.Registers() {
+		p := reg.ToPhysical(r)
+		if p == nil || p.Kind() != reg.KindGP {
+			continue
+		}
+		if p.PhysicalIndex() >= 8 || (p.Mask() == reg.S8L.Mask() && p.PhysicalIndex() >= 4) {
+			return true
+		}
+	}
+	for _, op := range i.Operands {
+		if operand.IsR64(op) {
+			return true
+		}
+	}
+	return false
 }
 
 // EnsureBasePointerCalleeSaved ensures that the base pointer register will be
